@@ -201,7 +201,11 @@ class Impl:
                     if hr is not None:
                         b.repr_models[value.key] = hr + '.' + VAR_SUFFIX[k % len(VAR_SUFFIX)]
             self.builder = SrcBuilder(self.root, on_bind=on_bind)
-            self._emits = self.builder.run_all()
+            def block_loop(node):
+                # loops that emit one call per block / per part: `for i, b in enumerate(...)` -- also unrolled 3 times
+                it = strip_wrappers(node.iter) if isinstance(node, ast.For) else None
+                return isinstance(it, ast.Call) and norm(it.func) == 'enumerate' and node is not inner and node is not outer
+            self._emits = self.builder.run_all(triple=block_loop)
             if not self._emits:
                 raise AnalysisError(f"{self.qual}: partial evaluation found no generated source")
         return self._emits
@@ -788,7 +792,7 @@ def rule_template(repo):
                 for kind, c, msg in probs:
                     r.bad(im.mod, im.qual, f"{g.label}: {kind}: {c}", msg, getattr(g.emit.call, 'lineno', 0))
     r.evaluations += _self_probe()
-    _floor(r, 200)
+    _floor(r, 250)
     return r
 
 
@@ -1357,7 +1361,7 @@ def rule_watch(repo):
             if lone:
                 r.bad(im.mod, im.qual, f"{g.label}: uncompared {lone}", f"snapshot(s) {lone} are never compared with the "
                       f"live signal", getattr(g.emit.call, 'lineno', 0))
-    _floor(r, 70)
+    _floor(r, 100)
     return r
 
 
@@ -1590,6 +1594,8 @@ def _check_per_scc_state(r, im, E0):
                                                                                for x in ast.walk(t) if isinstance(x, ast.Name)
                                                                                and isinstance(x.ctx, ast.Store)}
                        and (region is im.root or inside(a, region))]
+            created += [a for a in preceding_stmts(st) if isinstance(a, ast.Expr) and is_method_call(a.value, 'clear')
+                        and norm(a.value.func.value) == nm and (region is im.root or inside(a, region))]
             if not created:
                 bad = n
                 break
@@ -1616,7 +1622,7 @@ def rule_once(repo):
             _check_once(r, im, E0)
             _check_novar(r, im, E0)
             _check_per_scc_state(r, im, E0)
-    _floor(r, 4)
+    _floor(r, 24)
     return r
 
 
@@ -1686,6 +1692,7 @@ def _check_emitted_blocks(r, im):
                     bad.append(f"`{c}()` runs {k[2][0]!r}, not the complete BFS schedule of the SCC")
                 else:
                     per_list.setdefault(lk, set()).add('all')
+                    im.lists_by_ref = getattr(im, 'lists_by_ref', set()) | {lk[1]}
                     if not tick_checked:
                         _check_tick_function(r, im, k[1])
                         tick_checked = True
@@ -1704,6 +1711,18 @@ def _check_emitted_blocks(r, im):
                     per_list.setdefault(('parts', lk[1]), set()).add(k[2][0][2])
             else:
                 bad.append(f"`{c}()` is bound to {v!r}: not a block of the SCC schedule")
+        # distinct blocks stored under one name: the later one replaces the earlier one in the namespace of the loop
+        for name, cnt in sorted(g.emit.clobbered.items()):
+            if name in g.calls:
+                bad.append(f"{cnt + 1} different blocks are stored in the globals of the generated loop under the one name "
+                           f"`{name}` (the identifier does not contain the index of the block/part): each `{name}()` runs the "
+                           f"block stored last and the others never run")
+        ncalls = {}
+        for c in g.calls:
+            ncalls[c] = ncalls.get(c, 0) + 1
+        for c, k in sorted(ncalls.items()):
+            if k > 1 and c not in g.emit.clobbered:
+                bad.append(f"`{c}()` is called {k} times in one pass while only one block is stored under that name")
         # globals entries that are blocks but are never called
         for name, v in glob.items():
             k = v.key if isinstance(v, Sym) else None
@@ -1797,6 +1816,17 @@ def _check_bfs(r, im, LIST):
         r.bad(m, fn, f"for {v} in {norm(sl.iter)}", "the BFS does not visit every neighbour", sl.lineno)
     else:
         r.ok(m, fn, f"for {v} in {norm(sl.iter)}: expands along every constraint edge ({dirs[ADJ]} map)")
+    for lp_, what in ((sl, 'the loop over the neighbours of a block'), (w, 'the worklist loop')):
+        early = [(ev, out) for ev, out in Paths(max_iter=1).block(lp_.body) if out in ('break', 'return')]
+        r.evaluations += 1
+        if early:
+            conds = ' and '.join(f"{'' if e[2] else 'not '}({norm(e[1])})" for e in early[0][0] if e[0] == 'branch') or 'always'
+            r.bad(m, fn, f"{early[0][1]} in {what} [{conds}]",
+                  f"{what} is left early ({early[0][1]} when {conds}): the BFS follows a single path instead of expanding every "
+                  f"neighbour, so blocks of the SCC that are not on that path (a hub with several spokes) are never put into the "
+                  f"super-block and never run", lp_.lineno)
+        else:
+            r.ok(m, fn, f"{what} has no early exit")
     pushes = [c for s in sl.body for c in walk_no_nested(s) if isinstance(c, ast.Call) and isinstance(c.func, ast.Attribute)
               and norm(c.func.value) == Q and c.func.attr in ('append', 'appendleft') and [norm(a) for a in c.args] == [v]]
     if len(pushes) != 1:
@@ -1960,10 +1990,20 @@ def _check_seeds(r, im, Q, w):
     m, fn = im.mod, im.qual
     blk = _siblings(w)
     idx = [i for i, x in enumerate(blk) if x is w][0]
-    inits = [i for i in range(idx) if isinstance(blk[i], ast.Assign) and any(norm(t) == Q for t in blk[i].targets)]
+    def _resets(st):
+        return (isinstance(st, ast.Assign) and any(norm(t) == Q for t in st.targets)) or \
+               (isinstance(st, ast.Expr) and is_method_call(st.value, 'clear') and norm(st.value.func.value) == Q)
+    inits = [i for i in range(idx) if _resets(blk[i])]
     if not inits:
-        raise AnalysisError(f"{fn}: worklist {Q} is not initialised next to the BFS loop")
-    between = blk[inits[-1] + 1: idx]
+        # created further out (e.g. before the per-SCC loop) and reused: it is empty again whenever the BFS loop ends
+        outer_inits = [st for st in preceding_stmts(w) if _resets(st)]
+        if not outer_inits:
+            raise AnalysisError(f"{fn}: worklist {Q} is never initialised before the BFS loop")
+        between = blk[:idx]
+        init_v = None
+    else:
+        between = blk[inits[-1] + 1: idx]
+        init_v = blk[inits[-1]].value if isinstance(blk[inits[-1]], ast.Assign) else None
 
     def is_push(c):
         return isinstance(c, ast.Call) and isinstance(c.func, ast.Attribute) and norm(c.func.value) == Q \
@@ -1978,8 +2018,8 @@ def _check_seeds(r, im, Q, w):
             if isinstance(s, ast.If) and s.orelse and must(s.body) and must(s.orelse):
                 return True
         return False
-    init_v = blk[inits[-1]].value
-    seeded_init = isinstance(init_v, ast.Call) and bool(init_v.args) or (isinstance(init_v, (ast.List, ast.Tuple)) and init_v.elts)
+    seeded_init = init_v is not None and (isinstance(init_v, ast.Call) and bool(init_v.args) or
+                                          (isinstance(init_v, (ast.List, ast.Tuple)) and bool(init_v.elts)))
     cons = f"seeds of {Q} before `while {norm(w.test)}`"
     if not seeded_init and not must(between):
         r.bad(m, fn, cons, "on some path the BFS starts from an empty worklist: the super-block is generated with no block "
@@ -2268,6 +2308,272 @@ def _check_condensation_indegree(r, im):
         r.ok(m, fn, f"for {norm(f.target)} in {norm(f.iter)}: {norm(inc)} unconditionally")
 
 
+def _per_scc_region(im, E0):
+    region = None
+    p = parent(E0)
+    while p is not None and p is not im.root:
+        if isinstance(p, ast.For):
+            region = p
+        p = parent(p)
+    return region or im.root
+
+
+def _check_fresh_block_list(r, im):
+    """a block list that the generated SCC function holds by reference (the tick function iterates it when the wrapper is
+    CALLED) must be a fresh object per SCC; two-SCC evaluation: after SCC 2 is compiled, wrapper 1 must still run SCC 1"""
+    m, fn = im.mod, im.qual
+    for L in sorted(getattr(im, 'lists_by_ref', set())):
+        for E0 in emission_stmts(im):
+            region = _per_scc_region(im, E0)
+            created = [a for a in preceding_stmts(E0) if isinstance(a, (ast.Assign, ast.AnnAssign))
+                       and L in {x.id for t in (a.targets if isinstance(a, ast.Assign) else [a.target]) for x in ast.walk(t)
+                                 if isinstance(x, ast.Name) and isinstance(x.ctx, ast.Store)}
+                       and (region is im.root or inside(a, region))]
+            refills = [norm(_stmt_of(c)) for c in walk_no_nested(region) if isinstance(c, ast.Call)
+                       and isinstance(c.func, ast.Attribute) and norm(c.func.value) == L
+                       and c.func.attr in ('clear', 'append', 'extend', 'insert', 'pop')]
+            cons = f"block list `{L}` held by reference by the generated SCC function ({norm(E0)[:50]})"
+            if region is im.root and not created:
+                raise AnalysisError(f"{fn}: cannot find where the block list {L} is created")
+            if created:
+                r.ok(m, fn, cons + f": created per SCC ({norm(created[-1])})")
+            else:
+                r.bad(m, fn, cons,
+                      f"`{L}` is created once before the per-SCC loop and only emptied / refilled per SCC ({'; '.join(refills[:3])}); "
+                      f"every generated wrapped_SCC_n runs `{L}` through the tick function when it is CALLED, and they all hold "
+                      f"that one list: with two non-trivial SCCs, after SCC 2 is compiled the list holds SCC 2's blocks, so "
+                      f"wrapper 1 runs SCC 2's blocks and the blocks of SCC 1 are never evaluated", E0.lineno)
+    if im.name == 'Mamba':
+        # the meta blocks copy their elements at compile time: the list parameter is only iterated
+        f = im.mod.get_func('Mamba2020Pass.compile_meta_block')
+        p = f.args.args[1].arg if len(f.args.args) > 1 else None
+        uses = [n for n in ast.walk(f) if isinstance(n, ast.Name) and n.id == p and isinstance(n.ctx, ast.Load)]
+
+        def iterated(n):
+            q = parent(n)
+            while isinstance(q, ast.Call) and isinstance(q.func, ast.Name) and q.func.id in (WRAPPERS | {'enumerate'}):
+                n, q = q, parent(q)
+            return (isinstance(q, (ast.For, ast.comprehension)) and q.iter is n) or \
+                   (isinstance(q, ast.Call) and norm(q.func) == 'len')
+        cons = f"Mamba2020Pass.compile_meta_block({p}): the part is only iterated (blocks bound one by one at compile time)"
+        if p and uses and all(iterated(n) for n in uses):
+            r.ok(im.mod, 'Mamba2020Pass.compile_meta_block', cons)
+        else:
+            r.bad(im.mod, 'Mamba2020Pass.compile_meta_block', cons, f"the list `{p}` itself is kept by the compiled meta block: a "
+                  f"part list that is reused for the next part/SCC changes what an already compiled meta block runs", f.lineno)
+
+
+# -- abstract evaluation of the BFS linearisation over small non-ring SCC shapes -----------------------------------------
+_BFS_SHAPES = [
+    # (label, SCC vertices, edges incl. one edge leaving the SCC to the foreign block 'o')
+    ('hub with three 2-cycles', ['h', 'a', 'b', 'c'],
+     [('h', 'a'), ('a', 'h'), ('h', 'b'), ('b', 'h'), ('h', 'c'), ('c', 'h'), ('h', 'o')]),
+    ('figure-eight', ['m', 'a', 'b', 'c', 'd'],
+     [('m', 'a'), ('a', 'b'), ('b', 'm'), ('m', 'c'), ('c', 'd'), ('d', 'm'), ('c', 'o')]),
+    ('ring with a chord', ['p', 'q', 'r', 's'],
+     [('p', 'q'), ('q', 'r'), ('r', 's'), ('s', 'p'), ('p', 'r'), ('q', 'o')]),
+    ('plain ring', ['x', 'y', 'z'], [('x', 'y'), ('y', 'z'), ('z', 'x'), ('o', 'x')]),
+]
+
+
+class _GraphEval(Evaluator):
+    """expressions of the BFS loop over concrete small graphs: lists stand for sets/deques, dicts for adjacency maps"""
+    def ev_Subscript(self, e):
+        base, idx = self.ev(e.value), self.ev(e.slice)
+        try:
+            return base[idx]
+        except (KeyError, IndexError, TypeError):
+            raise AnalysisError(f"BFS evaluation: `{norm(e)}` has no value on the model graph")
+
+    def ev_Compare(self, e):
+        left = self.ev(e.left)
+        for op, rt in zip(e.ops, e.comparators):
+            right = self.ev(rt)
+            if isinstance(op, (ast.In, ast.NotIn)) and isinstance(right, (list, dict)):
+                res = (left in right) == isinstance(op, ast.In)
+            elif isinstance(op, (ast.Eq, ast.Is)):
+                res = left == right
+            elif isinstance(op, (ast.NotEq, ast.IsNot)):
+                res = left != right
+            elif isinstance(op, (ast.Lt, ast.LtE, ast.Gt, ast.GtE)) and isinstance(left, int) and isinstance(right, int):
+                res = {ast.Lt: left < right, ast.LtE: left <= right, ast.Gt: left > right, ast.GtE: left >= right}[type(op)]
+            else:
+                raise AnalysisError(f"BFS evaluation: comparison `{norm(e)}` outside the evaluated vocabulary")
+            if not res:
+                return False
+            left = right
+        return True
+
+    def ev_Call(self, e):
+        f = e.func
+        args = [self.ev(a) for a in e.args]
+        if isinstance(f, ast.Attribute):
+            recv = self.ev(f.value)
+            if isinstance(recv, list):
+                if f.attr in ('append', 'add') and len(args) == 1:
+                    if f.attr == 'append' or args[0] not in recv:
+                        recv.append(args[0])
+                    return None
+                if f.attr == 'appendleft' and len(args) == 1:
+                    recv.insert(0, args[0])
+                    return None
+                if f.attr == 'popleft' and not args and recv:
+                    return recv.pop(0)
+                if f.attr == 'pop' and recv and all(isinstance(a, int) for a in args):
+                    return recv.pop(*args)
+                if f.attr in ('extend', 'update') and len(args) == 1 and isinstance(args[0], list):
+                    for x in args[0]:
+                        if f.attr == 'extend' or x not in recv:
+                            recv.append(x)
+                    return None
+        elif isinstance(f, ast.Name):
+            if f.id in ('set', 'list', 'deque', 'sorted', 'reversed', 'tuple') and len(args) <= 1:
+                src = list(args[0]) if args else []
+                if f.id == 'set':
+                    src = list(dict.fromkeys(src))
+                return list(reversed(src)) if f.id == 'reversed' else (sorted(src) if f.id == 'sorted' else src)
+            if f.id == 'len' and len(args) == 1 and isinstance(args[0], (list, dict)):
+                return len(args[0])
+        raise AnalysisError(f"BFS evaluation: call `{norm(e)}` outside the evaluated vocabulary")
+
+
+def _run_graph_stmts(stmts, ev, fuel):
+    for st in stmts:
+        fuel[0] -= 1
+        if fuel[0] < 0:
+            raise _Jump('fuel')
+        if isinstance(st, ast.If):
+            _run_graph_stmts(st.body if ev.ev(st.test) else st.orelse, ev, fuel)
+        elif isinstance(st, ast.Assign) and len(st.targets) == 1 and isinstance(st.targets[0], ast.Name):
+            ev.env[st.targets[0].id] = ev.ev(st.value)
+        elif isinstance(st, ast.Expr):
+            ev.ev(st.value)
+        elif isinstance(st, (ast.For, ast.While)):
+            def body_once():
+                try:
+                    _run_graph_stmts(st.body, ev, fuel)
+                except _Jump as j:
+                    if j.kind == 'break':
+                        return False
+                    if j.kind != 'continue':
+                        raise
+                return True
+            if isinstance(st, ast.For):
+                if not isinstance(st.target, ast.Name):
+                    raise AnalysisError(f"BFS evaluation: loop target {norm(st.target)}")
+                for el in list(ev.ev(st.iter)):
+                    ev.env[st.target.id] = el
+                    if not body_once():
+                        break
+            else:
+                while ev.ev(st.test):
+                    fuel[0] -= 1
+                    if fuel[0] < 0:
+                        raise _Jump('fuel')
+                    if not body_once():
+                        break
+        elif isinstance(st, ast.Continue):
+            raise _Jump('continue')
+        elif isinstance(st, ast.Break):
+            raise _Jump('break')
+        elif isinstance(st, ast.Pass):
+            pass
+        else:
+            raise AnalysisError(f"BFS evaluation: statement outside the evaluated vocabulary: {norm(st)[:80]}")
+
+
+def bfs_results(im, LIST, Q, w):
+    """[(shape, seed, scheduled list or None when it does not terminate)] of the BFS loop `w` on the model graphs"""
+    c = getattr(im, '_bfs_results', None)
+    if c is not None:
+        return c
+    dirs = adjacency_dirs(im)
+    blk = _siblings(w)
+    idx = [i for i, x in enumerate(blk) if x is w][0]
+    pre = [st for st in blk[:idx] if isinstance(st, ast.Assign) and len(st.targets) == 1 and isinstance(st.targets[0], ast.Name)
+           and st.targets[0].id not in (Q, LIST) and names_in(st.value) <= {Q, 'set', 'list', 'deque'}]
+    out = []
+    for label, verts, edges in _BFS_SHAPES:
+        allv = sorted({x for e in edges for x in e})
+        maps = {}
+        for nm, d in dirs.items():
+            maps[nm] = {x: [] for x in allv}
+            for a, b in edges:
+                (maps[nm][a].append(b) if d == 'successor' else maps[nm][b].append(a))
+        for seeds in [[x] for x in verts] + [list(verts)]:
+            env = dict(maps)
+            env.update({im.scc_name: list(verts), Q: list(seeds), LIST: []})
+            ev = _GraphEval(env, arith=True)
+            try:
+                _run_graph_stmts(pre + [w], ev, [4000])
+                res = list(ev.env[LIST])
+            except _Jump:
+                res = None
+            out.append((label, verts, seeds, res))
+    im._bfs_results = out
+    return out
+
+
+def _check_bfs_shapes(r, im, LIST, Q, w):
+    m, fn = im.mod, im.qual
+    for label, verts, seeds, res in bfs_results(im, LIST, Q, w):
+        r.evaluations += 1
+        cons = f"BFS over a {label} {{{', '.join(verts)}}} from {{{', '.join(seeds)}}}"
+        if res is None:
+            r.bad(m, fn, cons, f"on a {label} the BFS started at {seeds} never terminates: scheduling hangs", w.lineno)
+        elif set(res) != set(verts):
+            missing, foreign = sorted(set(verts) - set(res)), sorted(set(res) - set(verts))
+            r.bad(m, fn, cons, f"on a {label} the BFS started at {seeds} schedules {res}: " +
+                  (f"the blocks {missing} of the SCC are never put into the super-block and never run" if missing else
+                   f"the foreign blocks {foreign} are dragged into the loop of this SCC"), w.lineno)
+        else:
+            r.ok(m, fn, cons + f": schedules {res}")
+
+
+def _check_meta_block_source(r, repo):
+    """Mamba2020Pass.compile_meta_block: the generated meta block CALLS every block it was given, once, by the name the
+    block is bound to in the globals of the exec"""
+    m = repo.mod(MAMBA)
+    f = m.get_func('Mamba2020Pass.compile_meta_block')
+    fn = 'Mamba2020Pass.compile_meta_block'
+    b = SrcBuilder(f)
+    emits = b.run_all(triple=lambda node: isinstance(node, ast.For))
+    if not emits:
+        raise AnalysisError(f"{fn}: partial evaluation found no generated source")
+    for e in emits:
+        if not isinstance(e.globals, dict):
+            raise AnalysisError(f"{fn}: globals of the generated meta block are not statically known")
+        bound = [k for k, v in e.globals.items() if isinstance(v, Sym) and v.key[0] == 'elem']
+        label = f"meta block of {len(bound)} block(s) [{'; '.join(c for c, t in e.choices if t) or 'plain'}]"
+        try:
+            tree = ast.parse(e.src)
+        except SyntaxError as ex:
+            r.bad(m, fn, f"{label}: syntax", f"generated meta block does not compile: {ex.msg}", e.call.lineno)
+            continue
+        fd = [x for x in tree.body if isinstance(x, ast.FunctionDef)]
+        if len(fd) != 1:
+            r.bad(m, fn, f"{label}: function", "generated source does not define exactly one meta block function", e.call.lineno)
+            continue
+        calls = [norm(st.value.func) for st in fd[0].body if isinstance(st, ast.Expr) and isinstance(st.value, ast.Call)]
+        bare = [norm(st.value) for st in fd[0].body if isinstance(st, ast.Expr) and not isinstance(st.value, (ast.Call, ast.Constant))]
+        probs = []
+        for k in bound:
+            if calls.count(k) != 1:
+                probs.append(f"block `{k}` is called {calls.count(k)} times (expected once)" +
+                             (f"; the statement `{k}` only references it" if k in bare else ''))
+        for c in calls:
+            if c not in e.globals:
+                probs.append(f"`{c}()` is not bound in the globals of the meta block")
+        if [c for c in calls if c in bound] != [k for k in bound if k in calls]:
+            probs.append("the blocks are not called in the order of the list")
+        if probs:
+            for pb in probs:
+                r.bad(m, fn, f"{label}: {pb[:60]}", pb + ": a block (for an SCC: the whole generated wrapped_SCC loop) that is placed "
+                      "in a meta block is never executed, its outputs keep stale values", e.call.lineno)
+        else:
+            r.ok(m, fn, f"{label}: every bound block is called once, in order")
+
+
 def rule_cover(repo):
     r = RuleResult('R-C11-cover',
                    "the loop re-evaluates every block of the SCC: the BFS schedule reaches the whole SCC from a non-empty "
@@ -2285,6 +2591,7 @@ def rule_cover(repo):
         if not _check_isolation(r, im):
             continue
         lists = _check_emitted_blocks(r, im)
+        _check_fresh_block_list(r, im)
         whole = sorted({n for k, n in lists if k == 'whole'})
         parts = sorted({n for k, n in lists if k in ('last', 'parts')})
         if len(whole) != 1:
@@ -2294,9 +2601,12 @@ def rule_cover(repo):
         Q, w = _check_bfs(r, im, whole[0])
         if Q is not None:
             _check_seeds(r, im, Q, w)
+            _check_bfs_shapes(r, im, whole[0], Q, w)
+            im.bfs_parts = (whole[0], Q, w)
         for P in parts:
             _check_partition(r, im, whole[0], P)
-    _floor(r, 60)
+    _check_meta_block_source(r, repo)
+    _floor(r, 135)
     return r
 
 
@@ -2330,6 +2640,16 @@ def _openloop_observation(repo):
         return f"OpenLoopCLPass copy of the SCC code (outside the anchors of C11) could not be analysed: {e}"
 
 
+def _ensure_bfs_parts(repo):
+    for im in impls(repo):
+        if getattr(im, 'bfs_parts', None) is None:
+            try:
+                rule_cover(repo)
+            except AnalysisError:
+                pass
+            return
+
+
 def rule_siblings(repo):
     r = RuleResult('R-C11-siblings',
                    "both cyclic-capable schedulers give a cycle the same number of passes before UpblkCyclicError "
@@ -2345,6 +2665,7 @@ def rule_siblings(repo):
             r.bad(im.mod, im.qual, f"iteration bounds {bs}", f"the generated variants of one scheduler do not share one "
                   f"iteration bound ({bs or 'none found'})")
     a, b = (impls(repo)[0], impls(repo)[1])
+    _ensure_bfs_parts(repo)
     if per[a.name] and per[b.name]:
         if per[a.name] == per[b.name]:
             r.ok(a.mod, a.qual, f"iteration bound {per[a.name][0]} == bound in {b.qual}")
@@ -2372,8 +2693,20 @@ def rule_siblings(repo):
             r.ok(a.mod, a.qual, cons + f": same coverage in {b.name}")
             if sa_ != sb_:
                 r.observations.append(f"{cons}: {a.name} keeps {sa_}, {b.name} keeps {sb_} (both cover every element)")
+    # the two BFS linearisations cover the same blocks on the model SCC shapes
+    if getattr(a, 'bfs_parts', None) and getattr(b, 'bfs_parts', None):
+        for (la, va, sa2, ra_), (lb, vb, sb2, rb_) in zip(bfs_results(a, *a.bfs_parts), bfs_results(b, *b.bfs_parts)):
+            r.evaluations += 1
+            ca_, cb_ = (None if ra_ is None else sorted(set(ra_))), (None if rb_ is None else sorted(set(rb_)))
+            cons = f"BFS over a {la} from {{{', '.join(sa2)}}}"
+            if ca_ == cb_:
+                r.ok(a.mod, a.qual, cons + f": same blocks scheduled in {b.name}")
+            else:
+                worse = b if (cb_ is None or (ca_ is not None and len(cb_) < len(ca_))) else a
+                r.bad(worse.mod, worse.qual, cons, f"the two schedulers linearise the same SCC differently: {a.name} schedules "
+                      f"{ca_}, {b.name} schedules {cb_} -- {a.rel}:{a.root.lineno} / {b.rel}:{b.root.lineno}")
     r.observations.append(_openloop_observation(repo))
-    _floor(r, 3)
+    _floor(r, 30)
     return r
 
 
@@ -2657,7 +2990,14 @@ def rule_edges_instance_ro(repo):
     return rule_cache_readonly(repo)
 
 
-RULES = [rule_template, rule_watch, rule_once, rule_cover, rule_siblings, rule_acyclic, rule_metaname, rule_msg,
+def rule_meta_block_calls(repo):
+    """a cyclic group that the top-level trace breaking packs into a meta block only runs if the generated meta block
+    CALLS it (`blk{i}()`, not a bare reference) -- shared with C07 (R-C07-meta-block-codegen)"""
+    from rules.c07 import rule_meta_block_codegen
+    return rule_meta_block_codegen(repo)
+
+
+RULES = [rule_template, rule_watch, rule_once, rule_cover, rule_siblings, rule_acyclic, rule_metaname, rule_msg, rule_meta_block_calls,
          rule_edges_funcs, rule_edges_overlap, rule_edges_pairing, rule_snapshot_clone, rule_edges_instance, rule_edges_instance_ro, rule_edges_methods, rule_edges_visitor]
 
 EXPLANATION = (
@@ -2833,6 +3173,27 @@ MUTANTS = [
     dict(name='mamba-variable-set-hoisted-out-of-compile-scc', rule='R-C11', edits=[
         dict(file=MAMBA, old="      variables = set()\n      for (u, v) in E:", new="      for (u, v) in E:"),
         dict(file=MAMBA, old="    def compile_scc( i ):\n", new="    variables = set()\n    def compile_scc( i ):\n")]),
+    _m('mamba-meta-blocks-share-one-name', "            b = self.compile_meta_block( meta )\n",
+       "            b = self.compile_meta_block( meta )\n            b.__name__ = f\"scc{scc_id}_meta_block\"\n", 'R-C11-cover', file=MAMBA),
+    _m('mamba-unrolled-blocks-share-one-name',
+       "{b.__name__}\" )\n          _globals[f\"blk{i}\"] = b # put it into the block's closure",
+       "{b.__name__}\" .replace(f\"blk{i}\", \"blk\") )\n          _globals[\"blk\"] = b # put it into the block's closure",
+       'R-C11-cover', file=MAMBA),
+    dict(name='dyn-block-list-shared-by-all-scc-wrappers', rule='R-C11-cover', edits=[
+        dict(file=DYN, old="    scc_id = 0\n    for i in scc_schedule:", new="    scc_id = 0\n    tmp_schedule = []\n    for i in scc_schedule:"),
+        dict(file=DYN, old="        tmp_schedule = []\n        Q = deque()", new="        tmp_schedule.clear()\n        Q = deque()")]),
+    dict(name='dyn-block-list-and-worklist-hoisted', rule='R-C11-cover', edits=[
+        dict(file=DYN, old="    scc_id = 0\n    for i in scc_schedule:",
+             new="    scc_id = 0\n    tmp_schedule = []\n    Q = deque()\n    for i in scc_schedule:"),
+        dict(file=DYN, old="        tmp_schedule = []\n        Q = deque()", new="        tmp_schedule.clear()\n        Q.clear()")]),
+    _m('mamba-bfs-follows-a-single-path', "            Q.append( v )\n            visited.add( v )\n",
+       "            Q.append( v )\n            visited.add( v )\n            break\n", 'R-C11-cover', file=MAMBA),
+    _m('dyn-bfs-stops-after-first-block', "          tmp_schedule.append( u )\n", "          tmp_schedule.append( u )\n          if len(tmp_schedule) > 1: break\n",
+       'R-C11-cover'),
+    _m('mamba-meta-block-references-scc-without-calling', "        blk_srcs.append( f\"blk{i}() # {b.__name__}\" )",
+       "        blk_srcs.append( f\"blk{i} # {b.__name__}\" )", 'R-C11-cover', file=MAMBA),
+    _m('mamba-meta-block-skips-first-block', "    for i, b in enumerate(blocks):\n      # This is a normal update block",
+       "    for i, b in list(enumerate(blocks))[1:]:\n      # This is a normal update block", 'R-C11-cover', file=MAMBA),
     # --- siblings / acyclic-only pass
     _m('mamba-bound-differs', "    if N > 100:\n", "    if N > 1000:\n", 'R-C11-siblings', file=MAMBA),
     _m('simple-incomplete-schedule-accepted', "if len(schedule) != len(V):", "if len(schedule) > len(V):", 'R-C11-acyclic',
@@ -2877,6 +3238,18 @@ EQUIV = [
         dict(file=DYN, old="          _globals = { 's': s, 'scc_tick_func': scc_tick_func, 'deepcopy': deepcopy,\n"
                            "                       'UpblkCyclicError': UpblkCyclicError }\n",
              new="          _globals = dict( base_globals )\n          _globals[ 'scc_tick_func' ] = scc_tick_func\n")]),
+    _m('meta-blocks-renamed-with-index', "            b = self.compile_meta_block( meta )\n",
+       "            b = self.compile_meta_block( meta )\n            b.__name__ = f\"scc{scc_id}_meta_block{i}\"\n", file=MAMBA),
+    _m('meta-blocks-keyed-by-explicit-name',
+       "            blk_srcs.append( f\"{b.__name__}()\" )\n            _globals[ b.__name__ ] = b\n",
+       "            nm = f\"part{i}_of_scc\"\n            blk_srcs.append( f\"{nm}()\" )\n            _globals[ nm ] = b\n", file=MAMBA),
+    dict(name='worklist-reused-after-clear', edits=[
+        dict(file=DYN, old="    scc_id = 0\n    for i in scc_schedule:", new="    scc_id = 0\n    Q = deque()\n    for i in scc_schedule:"),
+        dict(file=DYN, old="        tmp_schedule = []\n        Q = deque()", new="        tmp_schedule = []\n        Q.clear()")]),
+    dict(name='meta-block-call-text-factored-out', edits=[
+        dict(file=MAMBA, old="    for i, b in enumerate(blocks):\n      # This is a normal update block",
+             new="    for i, b in enumerate(blocks):\n      call = f\"blk{i}()\"\n      # This is a normal update block"),
+        dict(file=MAMBA, old="        blk_srcs.append( f\"blk{i}() # {b.__name__}\" )", new="        blk_srcs.append( f\"{call} # {b.__name__}\" )")]),
     _m('while-one', "  while True:\n", "  while 1:\n", file=MAMBA),
     dict(name='counter-starts-at-one', edits=[dict(file=DYN, old="  N = 0\n", new="  N = 1\n"),
                                               dict(file=DYN, old="    if N > 100:\n", new="    if N > 101:\n")]),
